@@ -100,6 +100,8 @@ struct SimThread {
   std::function<void()> sfn;
   int64_t prio = 0;
   bool started = false;
+  bool released = false;   // joined (or detached and finished): the pthread_t value may be reused by a later thread
+  bool detached = false;
 };
 
 struct MutexState { int owner = -1; int count = 0; };
@@ -126,7 +128,7 @@ struct Kernel {
   std::priority_queue<Event> events;
   std::map<uint64_t, std::function<void()>> eventFns;
   uint64_t eventSeq = 0;
-  std::vector<FdEntry> fds;
+  std::deque<FdEntry> fds;   // deque: entries keep their address when descriptors are added (pointers are held across reschedule())
   std::map<int, Listener*> listeners;
   uint64_t hash = 0x1234567;
   uint64_t steps = 0, switches = 0, ndecisions = 0;
@@ -325,7 +327,11 @@ SimThread* newThread(const char* name) {
 }
 
 SimThread* byPthread(pthread_t p) {
-  for (SimThread* t : K.threads) if (t->tid != 0 && pthread_equal(t->real, p)) return t;
+  // pthread_t values are reused after a join: the newest thread with that value that has not been released is meant
+  for (size_t i = K.threads.size(); i-- > 0;) {
+    SimThread* t = K.threads[i];
+    if (t->tid != 0 && !t->released && !(t->detached && t->state == T_DONE) && pthread_equal(t->real, p)) return t;
+  }
   if (pthread_equal(K.threads[0]->real, p)) return K.threads[0];
   return nullptr;
 }
@@ -681,10 +687,13 @@ int __wrap_pthread_join(pthread_t th, void** ret) {
   } else {
     reschedule();
   }
-  return __real_pthread_join(th, ret);
+  int r = __real_pthread_join(th, ret);
+  t->released = true;
+  return r;
 }
 
 int __wrap_pthread_detach(pthread_t th) {
+  if (simCtx()) { SimThread* t = byPthread(th); if (t) t->detached = true; }
   return __real_pthread_detach(th);
 }
 
